@@ -23,7 +23,7 @@ var (
 	assumed = true
 )
 
-type assumeFailed struct{}
+type assumeFailed_ struct{}
 
 func LoadReplay() {
 	b, err := os.ReadFile(os.Getenv("VERIF_REPLAY"))
@@ -48,7 +48,7 @@ func Failed() []string { return failed }
 
 func Finish(t *testing.T) {
 	if r := recover(); r != nil {
-		if _, ok := r.(assumeFailed); ok {
+		if _, ok := r.(assumeFailed_); ok {
 			fmt.Println("VERIF-ASSUME-FAILED")
 			return
 		}
@@ -109,7 +109,7 @@ func Choice(name string, n int) int {
 
 func Assume(c bool) {
 	if !c {
-		panic(assumeFailed{})
+		panic(assumeFailed_{})
 	}
 }
 
@@ -129,3 +129,31 @@ func FreezeShallow(root interface{}, what string) {}
 func FreezeGlobals()                              {}
 func FrozenWrites() int                           { return 0 }
 func FrozenWriteNote() string                     { return "" }
+
+// RunCase replays one recorded assignment against fn and reports assertion failures / panics
+// (used for engine-vs-native differential validation of sampled paths).
+func RunCase(file string, fn func()) (failedLabels []string, panicked string, assumeFailed bool) {
+	b, err := os.ReadFile(file)
+	if err != nil {
+		return nil, err.Error(), false
+	}
+	cur = replay{}
+	if err := json.Unmarshal(b, &cur); err != nil {
+		return nil, err.Error(), false
+	}
+	counts = map[string]int{}
+	failed = nil
+	func() {
+		defer func() {
+			if r := recover(); r != nil {
+				if _, ok := r.(assumeFailed_); ok {
+					assumeFailed = true
+					return
+				}
+				panicked = fmt.Sprint(r)
+			}
+		}()
+		fn()
+	}()
+	return failed, panicked, assumeFailed
+}
